@@ -344,7 +344,7 @@ fn sub_bulk(input: &[u8], st: &mut Stats) -> R {
         gen.track(&p2);
         prelude.push(p2);
     }
-    let n = cs.big_count();
+    let n = cs.big_count().min(262_150); // three parses per case: the 2^20 runs are left to C03 / C10 / C05
     let kind = cs.below(4);
     let base: u32 = [1_000_000u32, 30_000, 65_000][cs.below(3)];
     let t_any = gen.typed_ids.first().copied().unwrap_or(99);
